@@ -113,12 +113,18 @@ def len_facts(p, upto_bb, coll):
 
 
 def len_gt(p, bb, coll, k):
-    for f in len_facts(p, bb, coll):
-        if f[0] == "eq" and isinstance(f[1], int) and f[1] > k:
-            return True
-        if f[0] == "ne" and all(i in f[1] for i in range(0, k + 1)):
-            return True
-    return False
+    """len(coll) > k follows from the conditions before the site: every n in 0..=k is excluded by some length condition on coll
+    (len() switch, len() compared with a constant either way round, is_empty(), slice-pattern length tests)"""
+    c0 = _lib.coll(coll)
+    allowed = []
+    for c in conds_before(p, bb):
+        lf = length_fact(c)
+        if lf is not None and lf[0] == c0:
+            allowed.append(lf[1])
+        t = c.term
+        if is_call(t, "::is_empty") and _lib.coll(call_args(t)[0]) == c0 and c.fact[0] == "eq" and isinstance(c.fact[1], bool):
+            allowed.append((lambda n: n == 0) if c.fact[1] else (lambda n: n != 0))
+    return bool(allowed) and all(any(not f(n) for f in allowed) for n in range(0, k + 1))
 
 
 def range_item(t):
@@ -306,6 +312,20 @@ def discharge(ctx, body, p, ev, kind):
                 b0 = strip_refs(b)
                 if is_call(b0, "::len") and content(call_args(b0)[0]) == S:
                     return True
+                # the position of a match yielded by S.match_indices(<ASCII characters>) or S.char_indices(), or the position right after a one-byte match
+                k_ = 0
+                m0 = b0
+                if isinstance(m0, tuple) and m0 and m0[0] == "binop" and m0[1] == "Add" and const_int(m0[3]) is not None:
+                    k_ = const_int(m0[3])
+                    m0 = strip_refs(m0[2])
+                if isinstance(m0, tuple) and m0 and m0[0] == "field" and m0[2] == 0 and isinstance(m0[1], tuple) and m0[1][0] == "field" and m0[1][2] == 0 \
+                        and isinstance(m0[1][1], tuple) and m0[1][1][0] == "downcast" and m0[1][1][2] == "Some" and is_call(strip_refs(m0[1][1][1]), "MatchIndices<'a, P> as std::iter::Iterator>::next"):
+                    mi = [x for x in subterms(m0[1][1][1]) if is_call(x, "str>::match_indices")]
+                    if len(mi) == 1 and content(call_args(mi[0])[0]) == S:
+                        pat = strip_refs(resolve_promoted(ctx, strip_refs(call_args(mi[0])[1])))
+                        chars = [const_char(x) for x in pat[4]] if isinstance(pat, tuple) and pat[:2] == ("agg", "array") else [const_char(pat)] if const_char(pat) else []
+                        if chars and all(ch is not None and ch.isascii() for ch in chars) and k_ in (0, 1):
+                            return True
                 if isinstance(b0, tuple) and b0 and b0[0] == "field" and b0[2] == 0 and isinstance(b0[1], tuple) and b0[1][0] == "downcast" and b0[1][2] == "Some":
                     src = strip_refs(b0[1][1])
                     if is_call(src, "str>::find", "str>::rfind") and content(call_args(src)[0]) == S:
@@ -441,6 +461,10 @@ def canon_term(t, depth=0):
     """the term with every slice expression inside it written as Range{lo, hi} (see canon_range): operands are compared up to that spelling"""
     if not isinstance(t, tuple) or not t or depth > 40:
         return t
+    el = element_of(t) if (is_index_call(t) or t[0] == "index" or (t[0] == "deref" and isinstance(t[1], tuple) and (is_index_call(strip_refs(t[1])) or strip_refs(t[1])[:1] == ("index",)))) else None
+    if el is not None:
+        # element i of a collection, whether reached through Index::index (v[i]) or a slice-pattern binding ([a, b] => ..)
+        return ("call", "elem", (), (canon_term(el[0], depth + 1), ("const", "usize", el[1])), None)
     if is_index_call(t) and len(call_args(t)) == 2:
         a0 = canon_term(call_args(t)[0], depth + 1)
         a1 = canon_range(a0, canon_term(call_args(t)[1], depth + 1))
